@@ -56,6 +56,13 @@ Definition wf_port (p : Z) : bool := (0 <=? p) && (p <? 65536).
 (* the address the property demands: textual IP (here: its packed bytes) and port; empty when port = 0 *)
 Definition spec_addr (ip : ipaddr) (port : Z) : addr :=
   if port =? 0 then ANone else AInet (ip_bytes ip) port.
+(* ... and what decode_address gives on a host described by the oracle: an IPv6 address that must be formatted
+   (port <> 0) cannot be when inet_ntop lacks IPv6: ValueError, or _Ipv6UnsupportedError when supports_ipv6()
+   says so too (psutil issue 623) *)
+Definition addr_res (o : ipv6_oracle) (ip : ipaddr) (port : Z) : outcome dres :=
+  if port =? 0 then Val (DAddr ANone)
+  else if is_v6 ip && negb (o_ntop6 o) then (if o_supported o then Exc ValueError else Val DUnsupported)
+  else Val (DAddr (AInet (ip_bytes ip) port)).
 
 (* ------------------------------------------------------------ a line of tokens *)
 (* every token but the last is followed by one space plus pad(i) more *)
@@ -135,11 +142,23 @@ Definition k_uline (u : usock) : bytes :=
         (u_inode u ++ match u_path u with None => [10] | Some p => 32 :: p ++ [10] end).
 Definition k_ufile (socks : list usock) : bytes := hdr_unix ++ 10 :: concat (map k_uline socks).
 
+(* lines that are not socket records (issue 766: the tail of a name that contained a newline): no blank,
+   fewer than 7 white-space separated fields *)
+Inductive uitem := USock (u : usock) | UJunk (j : bytes).
+Definition junk_ok (j : bytes) : bool :=
+  negb (contains 32 j) && negb (contains 10 j) && Nat.ltb (length (split_ws (j ++ [10]))) 7.
+Definition k_uitem (i : uitem) : bytes := match i with USock u => k_uline u | UJunk j => j ++ [10] end.
+Definition k_ufile_items (items : list uitem) : bytes := hdr_unix ++ 10 :: concat (map k_uitem items).
+Definition socks_of (items : list uitem) : list usock :=
+  flat_map (fun i => match i with USock u => [u] | UJunk _ => [] end) items.
+
 Definition path_of (u : usock) : bytes := match u_path u with Some p => p | None => [] end.
 (* a path can be carried by the one-line-per-socket format: no line terminator inside *)
 Definition wf_usock (u : usock) : bool :=
   tok_ok (u_num u) && tok_ok (u_ref u) && tok_ok (u_proto u) && tok_ok (u_flags u) && tok_ok (u_st u)
   && is_dec (u_inode u) && negb (contains 10 (path_of u)).
+Definition uitem_ok (i : uitem) : bool :=
+  match i with USock u => wf_usock u | UJunk j => junk_ok j end.
 (* class excluded from the main theorem (finding): the bound name starts with white space *)
 Definition path_lead_ws (u : usock) : bool :=
   match path_of u with c :: _ => is_ws c | [] => false end.
@@ -295,6 +314,29 @@ Definition sys_owners (ps : list kproc) (ino : bytes) : list (option Z * Z) :=
 (* per-process: only the sockets this process holds *)
 Definition proc_owners (p : kproc) (ino : bytes) : list (option Z * Z) :=
   map (fun pf => (Some (fst pf), snd pf)) (holders_in p ino).
+
+(* a host without IPv6 (inet_ntop cannot format it, supports_ipv6() = False): psutil leaves out the IPv6 sockets
+   whose addresses would have to be formatted, i.e. those with a non-zero port; everything else is unchanged *)
+Definition ports_zero (s : isock) : bool := (s_lport s =? 0) && (s_rport s =? 0).
+Definition restrict6 (o : ipv6_oracle) (st : kstate) : kstate :=
+  if o_ntop6 o then st
+  else {| k_tcp4 := k_tcp4 st; k_tcp6 := option_map (filter ports_zero) (k_tcp6 st);
+          k_udp4 := k_udp4 st; k_udp6 := option_map (filter ports_zero) (k_udp6 st);
+          k_unix := k_unix st; k_procs := k_procs st |}.
+
+(* the /proc/net tables a call reads: those of the kind's classes that exist, each once, in this order *)
+Definition spec_log (kind : bytes) (st : kstate) : list bytes :=
+  on (spec_admits kind 2 1) [bs "tcp"]
+  ++ on (spec_admits kind 10 1) (match k_tcp6 st with Some _ => [bs "tcp6"] | None => [] end)
+  ++ on (spec_admits kind 2 2) [bs "udp"]
+  ++ on (spec_admits kind 10 2) (match k_udp6 st with Some _ => [bs "udp6"] | None => [] end)
+  ++ on (spec_admits kind 1 1) [bs "unix"].
+
+(* a process that holds no socket is answered at once: nothing is read *)
+Definition holds_no_socket (p : kproc) : bool :=
+  forallb (fun f => match f_target f with TSock _ => false | _ => true end) (p_fds p).
+Definition spec_proc_log (p : kproc) (kind : bytes) (st : kstate) : list bytes :=
+  if holds_no_socket p then [] else spec_log kind st.
 
 Definition spec_sys (kind : bytes) (st : kstate) : list entry :=
   spec_entries (sys_owners (k_procs st)) kind st.
